@@ -29,6 +29,12 @@ def clause_code(tok, S):
         return '.IN_SEQUENCE(*seqs[c.q[0]], *seqs[c.q[1]])'
     if tok == 'RT':
         return '.RT_TIMES(ub(c.lo), ub(c.hi))'
+    if tok == 'RT1':
+        return '.RT_TIMES(ub(c.hi))'
+    if tok == 'RTAL':
+        return '.RT_TIMES(AT_LEAST(ub(c.lo)))'
+    if tok == 'RTAM':
+        return '.RT_TIMES(AT_MOST(ub(c.hi)))'
     if tok.startswith('AL'):
         return '.TIMES(AT_LEAST(%s))' % tok[2:]
     if tok.startswith('AM'):
